@@ -165,6 +165,7 @@ def ctlOp (s : RState) (t : List String) : RState :=
   | ["deliver", a, b, i] =>
     { s with w := stepD w (.deliver (hostOf a) (hostOf b) (i.toNat?.getD 0)), expectObs := none }
   | ["mark", _] => { s with expectObs := some "ok" }
+  | ["stall", _] => { s with expectObs := some "ok" }      -- real time passes in the controller: no effect on the world
   | ["xprobe_bw", _, _, _] =>
     -- a probe on a private Sim inside the harness (blocked writer, real task and waker): no effect on this world
     { s with expectObs := some "ok" }
